@@ -13,7 +13,7 @@ import (
 // emitPart runs Engine E (cmd/emith): the root package's EmitterStack and
 // NopEmitter observed directly at their API.
 func emitPart(c *ctx) map[string]interface{} {
-	if violationsSoFar(c) {
+	if violationsSoFar(c) || (c.RS != nil && c.RS.Engine != "E") {
 		return nil
 	}
 	work := vc.WorkDir("emit")
@@ -34,6 +34,9 @@ func emitPart(c *ctx) map[string]interface{} {
 	}
 	out := filepath.Join(work, "emit.json")
 	n := c.pick(4000, 200000)
+	if c.RS != nil {
+		n = c.RS.ECase + 1
+	}
 	o, err := vc.Run(work, vc.Env(), bin, "-seed", strconv.FormatUint(c.Seed, 10), "-cases", strconv.Itoa(n), "-out", out)
 	var r res
 	b, rerr := os.ReadFile(out)
